@@ -301,7 +301,41 @@ fn err_chain(rng: &mut Rng) -> Val {
     Val::Err((0..n).map(|_| rng.pick(&["outer", "mid", "root", "", "io \"failed\"\n", "\u{e9}chec"]).to_string()).collect())
 }
 
+fn fixture(rng: &mut Rng) -> Val {
+    use super::fixtures::*;
+    let via = if rng.bool() { Via::Sval } else { Via::Serde };
+    let small = |rng: &mut Rng| -> i32 { *rng.pick(&[0, 1, -1, 42, i32::MAX, i32::MIN]) };
+    let fx = match rng.below(10) {
+        0 => Fx::Enum(FxEnum::Unit),
+        1 => Fx::Enum(FxEnum::Newtype(small(rng))),
+        2 => Fx::Enum(FxEnum::Tuple(small(rng), rng.bool())),
+        3 => Fx::Enum(FxEnum::Struct { a: small(rng), b: string(rng) }),
+        4 | 5 => Fx::Struct(FxStruct {
+            id: *rng.pick(&[0, 7, u64::MAX, i64::MAX as u64 + 1]),
+            name: string(rng),
+            opt: *rng.pick(&[None, Some(0), Some(-5), Some(i64::MIN)]),
+            tags: (0..rng.range(0, 3)).map(|_| string(rng)).collect(),
+            nested: FxEnum::Newtype(small(rng)),
+            pair: (*rng.pick(&[0i8, -128, 127]), 1.5),
+        }),
+        6 => {
+            if rng.bool() {
+                Fx::Newtype(FxNewtype(*rng.pick(&[0u16, 9, u16::MAX])))
+            } else {
+                Fx::Unit(FxUnit)
+            }
+        }
+        7 => Fx::StrMap((0..rng.range(0, 3)).map(|_| (string(rng), rng.next() as i64 >> rng.range(0, 60))).collect()),
+        8 => Fx::IntMap((0..rng.range(0, 3)).map(|_| (small(rng), string(rng))).collect()),
+        _ => Fx::OptVec((0..rng.range(0, 4)).map(|_| *rng.pick(&[None, Some(true), Some(false)])).collect()),
+    };
+    Val::Fx(via, fx)
+}
+
 fn any_val(rng: &mut Rng, av: Avoid, depth: usize) -> Val {
+    if depth > 0 && rng.chance(1, 12) {
+        return fixture(rng);
+    }
     match rng.below(16) {
         0 => Val::Null,
         1 => Val::Bool(rng.bool()),
@@ -326,7 +360,15 @@ fn any_val(rng: &mut Rng, av: Avoid, depth: usize) -> Val {
 /// a value for a well-known key: mostly of the expected form, sometimes malformed, sometimes anything
 fn well_known_val(rng: &mut Rng, key: &str, av: Avoid, depth: usize) -> Val {
     if rng.chance(1, 6) {
-        return any_val(rng, av, depth);
+        loop {
+            let v = any_val(rng, av, depth);
+            // how value_bag's integer cast looks through wrappers differs between the sval and the serde capture
+            // of a derived type; the id keys get no fixture values (recorded in `rule`)
+            if matches!(key, "trace_id" | "span_id" | "span_parent") && matches!(v, Val::Fx(..)) {
+                continue;
+            }
+            return v;
+        }
     }
     match key {
         "lvl" => match rng.below(6) {
@@ -659,10 +701,14 @@ pub fn gen_otlp(rng: &mut Rng, tier: Tier, n: usize) -> Vec<String> {
 fn term_simple(rng: &mut Rng) -> Val {
     loop {
         let v = any_val(rng, AVOID_FILE, 0);
-        if !matches!(v, Val::Sv(_)) {
+        if !is_complex(&v) {
             return v;
         }
     }
+}
+
+fn is_complex(v: &Val) -> bool {
+    matches!(v, Val::Sv(_) | Val::Fx(..) | Val::ArrI64(_) | Val::ArrF64(_))
 }
 
 fn term_scalar_elem(rng: &mut Rng) -> Tree {
@@ -714,7 +760,7 @@ pub fn gen_term(rng: &mut Rng, tier: Tier, n: usize) -> Vec<String> {
             if k == "metric_value" {
                 // a sequence in a hole is rendered through sval_fmt tokens (not modelled): simple values only there
                 *v = if holes.contains(k) { term_simple(rng) } else { term_metric_value(rng) };
-            } else if (holes.contains(k) || read.contains(&k.as_str())) && matches!(v, Val::Sv(_)) {
+            } else if (holes.contains(k) || read.contains(&k.as_str())) && is_complex(v) {
                 *v = term_simple(rng);
             }
         }
@@ -724,7 +770,7 @@ pub fn gen_term(rng: &mut Rng, tier: Tier, n: usize) -> Vec<String> {
         if rng.chance(1, 4) {
             let at = rng.usize(e.props.len() + 1);
             let v = well_known_val(rng, "span_id", AVOID_FILE, 0);
-            if !matches!(v, Val::Sv(_)) && !e.props.iter().any(|(k, _)| k == "span_id") {
+            if !is_complex(&v) && !e.props.iter().any(|(k, _)| k == "span_id") {
                 e.props.insert(at, ("span_id".into(), v));
                 e.unique = false;
             }
